@@ -192,7 +192,8 @@ def dep_predicate(rep, a, graph):
         clo = strip(c["args"][1]) if len(c["args"]) > 1 else None
         if clo and clo.get("k") == "Closure":
             pushes = [x for x in nb.calls(lambda n: n["k"] == "MCall" and n["name"] == "push", clo["body"])
-                      if (root_local(x["recv"]) or {}).get("name") == "dependencies"]
+                      if "Vec<ir::context::ItemId>" in (nb.ty(root_local(x["recv"]) or {}) or "") and
+                      "HashMap<ir::context::ItemId" in (nb.ty(root_local(x["recv"]) or {}) or "")]
             if pushes:
                 kindpat = clo["params"][1] if len(clo["params"]) > 1 else {}
                 unguarded = not [g for g in nb.guards(pushes[0]) if g not in nb.guards(c)]
